@@ -745,3 +745,18 @@ func deepUnknown(n int, inProp bool) []byte {
 	return []byte(`<?xml version="1.0" encoding="utf-8"?><C:calendar-query xmlns:C="urn:ietf:params:xml:ns:caldav" xmlns:D="DAV:"><D:prop>` + prop +
 		`</D:prop><C:filter><C:comp-filter name="VCALENDAR">` + inner + `</C:comp-filter></C:filter></C:calendar-query>`)
 }
+
+// exhaustiveSample: a few fixed filters with every kind of node, for the sequence cases
+func exhaustiveSample(i int) cfV {
+	fs := []cfV{
+		{name: "VCALENDAR", start: zeroInst, end: zeroInst},
+		{name: "VCALENDAR", start: zeroInst, end: zeroInst, comps: []cfV{{name: "VEVENT", start: exStart, end: exEnd}}},
+		{name: "VCALENDAR", start: zeroInst, end: zeroInst, comps: []cfV{{name: "VTODO", ind: true, start: zeroInst, end: zeroInst}}},
+		{name: "VCALENDAR", start: zeroInst, end: zeroInst, comps: []cfV{{name: "VEVENT", start: zeroInst, end: zeroInst,
+			props: []pfV{{name: "ATTENDEE", start: zeroInst, end: zeroInst, tm: &tmatch{" a<b ", true},
+				params: []pafV{{name: "PARTSTAT", tm: &tmatch{"x", false}}, {name: "ROLE", ind: true}}}}}}},
+		{name: "VCALENDAR", start: zeroInst, end: zeroInst, props: []pfV{{name: "X", ind: true, start: zeroInst, end: zeroInst}},
+			comps: []cfV{{name: "VEVENT", start: zeroInst, end: exEnd}, {name: "VJOURNAL", start: zeroInst, end: zeroInst}}},
+	}
+	return fs[i%len(fs)]
+}
